@@ -1650,3 +1650,111 @@ def same_under_hash_orders(expr, ns, ints, chars, order_a, order_b):
         return a == b
     outs = hashseed_outputs(expr, ints, chars)
     return len(set(outs)) == 1
+
+
+# --------------------------------------------------------------------------- C18: rollout
+
+RO_KEYS = ("a", "b", "ab", "", "a b", "é", "0", "aa")
+RO_SEPS = (".", "a", "..", "__", "-", " ")
+RO_KEYSETS = (("a", "b", "ab", "", "a b"), ("a", "a", "a", "a", "b"), ("é", "0", "aa", "b", "a"), ("b", "ab", "a", "b", "ab"),
+              ("", "", "", "", "a"), ("ab", "a", "b", "aa", "0"), ("x", "y", "x", "y", "x"), ("b", "", "b", "", "é"),
+              ("0", "00", "000", "0", "00"), ("a b", "b a", "ab", "ba", "a"))
+
+
+def ro_flatten(tree, sep, prefix=None):
+    """[(flat key, leaf)]: nested mapping -> separator-joined keys; a leaf is ('leaf', payload, is_optional)."""
+    out = []
+    for k, v in tree:
+        path = k if prefix is None else prefix + sep + k
+        if isinstance(v, list):
+            out += ro_flatten(v, sep, path)
+        else:
+            out.append((path, v))
+    return out
+
+
+def ro_expected(tree):
+    out = {}
+    for k, v in tree:
+        if isinstance(v, list):
+            out[k] = ro_expected(v)
+        else:
+            out[optional(k) if v[2] else k] = v[1]
+    return out
+
+
+def ro_keys_ok(tree, sep):
+    """precondition of C18: sibling keys distinct, keys separator-free, and flattening injective
+    ((k1 + sep + k2).split(sep) == [k1, k2] for every parent/child pair)."""
+    names = [k for k, v in tree]
+    if len(set(names)) != len(names):
+        return False
+    for k, v in tree:
+        if sep in k:
+            return False
+        if isinstance(v, list):
+            if not ro_keys_ok(v, sep):
+                return False
+            for k2, v2 in v:
+                if (k + sep + k2).split(sep) != [k, k2]:
+                    return False
+    return True
+
+
+def ro_same(got, want):
+    """deep equality incl. optional markers on the same leaves and leaf identity"""
+    if not isinstance(got, dict) or len(got) != len(want):
+        return False
+    for k in want:
+        if k not in got:
+            return False
+        if isinstance(want[k], dict):
+            if not ro_same(got[k], want[k]):
+                return False
+        elif got[k] is not want[k]:
+            return False
+    return True
+
+
+def ro_permute(items, sel):
+    out = []
+    rem = list(items)
+    i = 0
+    while len(rem) > 1 and i < len(sel):
+        idx = sel[i] if 0 <= sel[i] < len(rem) else 0
+        out.append(rem.pop(idx))
+        i += 1
+    return out + rem
+
+
+def rollout_problem(tree, sep, relaxed, sel):
+    if not ro_keys_ok(tree, sep):
+        return None
+    flat = ro_permute(ro_flatten(tree, sep), sel)
+    if relaxed:
+        flat.insert(sel[0] % (len(flat) + 1) if len(sel) else 0, (..., ...))
+    arg = {}
+    for k, leaf in flat:
+        if k is ...:
+            arg[...] = ...
+        else:
+            arg[optional(k) if leaf[2] else k] = leaf[1]
+    want = ro_expected(tree)
+    if relaxed:
+        want[...] = ...
+    snapshot = list(arg.items())
+    got = rollout(arg, separator=sep) if sep != "." else rollout(arg)
+    if list(arg.items()) != snapshot:
+        return "rollout mutated its argument"
+    if relaxed:
+        if ... not in got or got[...] is not ...:
+            return "top-level ...: ... entry lost"
+        got = {k: v for k, v in got.items() if k is not ...}
+        want = {k: v for k, v in want.items() if k is not ...}
+    if not ro_same(got, want):
+        return "rollout(flatten(n)) != n"
+    nested = ro_expected(tree)
+    again = rollout(nested, separator=sep)
+    if not ro_same(again, ro_expected(tree)):
+        return "rollout of an already nested mapping is not the identity"
+    return ""
